@@ -226,6 +226,7 @@ def check(repo, tier):
     # ------------------------------------------------------------------ ARR
     entry = f'{MOD}.arr'
     mods = {MOD}
+    RCOND = 3.5e-5          # (a value that is neither the default nor any constant of the module)
     n_contr = 0
     for order, rep, aslist in itertools.product((2, 3), (1, 2), (False, True)):
         if tier == 'quick' and order == 3 and rep == 2 and aslist:
@@ -257,8 +258,16 @@ def check(repo, tier):
             gl = guess if aslist else [guess]
             sc.old = [list(g._attrs['cores']) for g in gl]
             sc.old_ranks = [list(g._attrs['ranks']) for g in gl]
-            return sc.call(entry, x, y, basis, guess, repeats=rep, progress=False)
+            return sc.call(entry, x, y, basis, guess, repeats=rep, rcond=RCOND, progress=False)
         for ch, sc, res, exc in l2.explore(repo, body, typed=True):
+            # the cut-off ratio of every micro least-squares problem is the caller's rcond (both half sweeps, every row)
+            ls = [e for e in sc.events('lstsq') if l2rules.in_modules(e, mods)]
+            wrong = [e for e in ls if e.get('cond') != RCOND]
+            run.oblige('D2', (entry, scen, 'rcond'), not wrong)
+            if wrong:
+                where, cons, f_, ln = l2rules.ev_where(repo, wrong[0], mods)
+                run.add(Finding('C16', 'D2', where, cons, f'{scen}: {len(wrong)} of {len(ls)} micro least-squares problems are solved with the cut-off ratio {wrong[0].get("cond")!r} instead of the '
+                                f'caller\'s rcond={RCOND}', f_, ln))
             n_contr += l2rules.typing_obligations(run, 'C16', 'D2', repo, sc, scen, mods)
             if exc is not None:
                 run.oblige('D2', (entry, scen), False)
